@@ -369,6 +369,9 @@ def check_outcome(it, c, fr, outcome, value):
             ctx.oblige(f'final:{k}', 'post', truthy(ctx, it.spec_eval(cl, fr)), cl)
         return
     if outcome == 'return':
+        # `exc` in a final clause is the escaping exception, None on a normal return (it was unbound here: a clause
+        # which reached it -- only ever under a canary -- made the canary out-of-reach instead of killed)
+        fr.locs.setdefault('exc', None)
         for k, cl in enumerate(c.final or ()):
             ctx.oblige(f'final:{k}', 'post', truthy(ctx, it.spec_eval(cl, fr)), cl)
         if getattr(c, 'opaque_calls', False):
